@@ -5,6 +5,8 @@ pub mod common;
 pub mod convert;
 pub mod fx;
 pub mod matching;
+#[cfg(feature = "mcp")]
+pub mod mcp;
 #[cfg(cgt_verif)]
 pub mod order;
 pub mod relational;
